@@ -110,6 +110,72 @@ def check_result(ci, d, r, rng, i, j):
     return None
 
 
+def nested_stream(rep, ci, rng, count):
+    """Oracle-only stream on the real objects: diagrams whose boxes are themselves diagrams (what
+    foliation() returns, or hand-built) and subclass diagrams.  interchange(i, j) either returns a
+    well-typed diagram with the same boundary and boxes, or refuses with InterchangerError (wired
+    boxes) / IndexError (range) - never with another exception."""
+    from discopy import monoidal, rewriting
+    from props.c01 import rescan
+    g = G.G(rng, rigid=False)
+    cls = ci.Cls("monoidal")
+    bad = 0
+    for k in range(count):
+        p, _ = g.diagram(n_boxes=rng.randint(3, 7), max_width=6)
+        try:
+            d = common.with_timeout(10.0, ci.interp, cls, p)
+            fol = common.with_timeout(10.0, d.foliation)
+        except Exception:   # noqa
+            continue
+        if rng.random() < 0.4 and len(d) >= 2:     # hand-built: consecutive slices of d as boxes
+            cut = sorted(rng.sample(range(1, len(d)), min(len(d) - 1, rng.randint(1, 2))))
+            parts = [d[a:b] for a, b in zip([0] + cut, cut + [len(d)])]
+            fol = monoidal.Diagram(d.dom, d.cod, parts, len(parts) * [0])
+        n = len(fol)
+        rep.count("stream:nested-diagrams")
+        for _ in range(3):
+            i, j = rng.randint(-1, n), rng.randint(-1, n)
+            left = bool(rng.randint(0, 1))
+            what = None
+            try:
+                r = common.with_timeout(10.0, lambda: fol.interchange(i, j, left=left))
+                why = rescan(ci, r)
+                if why:
+                    what = "interchange(%d, %d) of a diagram of diagrams is ill-typed: %s" % (i, j, why)
+                elif len(r) != n:
+                    what = "interchange(%d, %d) of a diagram of diagrams changed the number of boxes" % (i, j)
+            except rewriting.InterchangerError:
+                rep.count("nested:refused-interchanger")
+            except IndexError:
+                if 0 <= i < n and 0 <= j < n:
+                    what = "interchange(%d, %d) raised IndexError for indices in range(%d)" % (i, j, n)
+            except Exception as exc:   # noqa
+                what = "interchange(%d, %d) of a diagram of diagrams raised %s: %s" % (
+                    i, j, type(exc).__name__, exc)
+            if what:
+                bad += 1
+                rep.count("oracle:nested:FAIL")
+                if bad <= 3:
+                    rep.violation(what, {"class": "monoidal", "inner program": p, "slices": len(fol),
+                                         "replay": base.snippet("monoidal", p) + "  # then .foliation().interchange(%d, %d, left=%s)" % (i, j, left)})
+            else:
+                rep.count("oracle:nested:pass")
+        # depth / foliation of the diagram of diagrams itself go through the same refusals
+        for name, f in (("depth", lambda: fol.depth()), ("normal_form", lambda: fol.normal_form())):
+            try:
+                common.with_timeout(10.0, f)
+                rep.count("oracle:nested:pass")
+            except NotImplementedError:
+                rep.count("nested:refused-not-implemented")
+            except Exception as exc:   # noqa
+                bad += 1
+                rep.count("oracle:nested:FAIL")
+                if bad <= 3:
+                    rep.violation("%s() of a diagram of diagrams raised %s: %s" % (name, type(exc).__name__, exc),
+                                  {"class": "monoidal", "inner program": p,
+                                   "replay": base.snippet("monoidal", p) + "  # then .foliation().%s()" % name})
+
+
 def run(tier, seed):
     import core_impl as ci
     rep = Report("C05", tier, seed)
@@ -133,6 +199,7 @@ def run(tier, seed):
             if bad:
                 rep.violation(bad, {"class": cname, "program": p, "impl": impl,
                                     "replay": base.snippet(cname, p)})
+    nested_stream(rep, ci, random.Random(seed + 55), 120 if tier == "quick" else 2000)
     base.settle(rep, "C05", proof_ok, "C05")
     return rep.finish(
         rule="classes monoidal and rigid: every (i, j) on every diagram over a small signature with <= 3 (4) "
